@@ -15,8 +15,8 @@ Proof.
     destruct (is_open p); [|apply Hs in H; simpl in *; lia].
     destruct (pa r'') as [[a r3]|] eqn:E2; [|discriminate]. apply Ha in E2. apply Hs in H. simpl in *. lia. }
   destruct (prefix_op t).
-  - destruct (S_New <=? L); [discriminate|].
-    destruct (pe false S_Unary r0) as [[v r']|] eqn:E; [|discriminate]. apply He in E.
+  - destruct (pre_max o <? L); [discriminate|].
+    destruct (pe (pre_in o ni) (pre_arg o) r0) as [[v r']|] eqn:E; [|discriminate]. apply He in E.
     destruct (negb (is_update o) || is_target v); [|discriminate]. apply Hs in H. lia.
   - destruct (atom_of t); [apply Hs in H; lia|].
     destruct (is_open t); [|discriminate].
@@ -94,8 +94,8 @@ Proof.
     destruct (pa r'') as [[a r3]|] eqn:E2; [|discriminate]. pose proof (Hsa _ _ _ E2) as Hl2. simpl in Hl.
     rewrite (Ha r'' _ ltac:(lia) E2). apply Hs; [lia | exact H]. }
   destruct (prefix_op t).
-  - destruct (S_New <=? L); [discriminate|].
-    destruct (pe false S_Unary r0) as [[v r']|] eqn:E; [|discriminate]. pose proof (Hsh _ _ _ _ _ E) as Hl.
+  - destruct (pre_max o <? L); [discriminate|].
+    destruct (pe (pre_in o ni) (pre_arg o) r0) as [[v r']|] eqn:E; [|discriminate]. pose proof (Hsh _ _ _ _ _ E) as Hl.
     rewrite (He _ _ _ _ (Nat.lt_succ_diag_r _) E).
     destruct (negb (is_update o) || is_target v); [|discriminate]. apply Hs; [lia | exact H].
   - destruct (atom_of t); [apply Hs; [lia | exact H]|].
